@@ -106,7 +106,10 @@ def diff_job(job: Dict[str, Any]) -> Dict[str, Any]:
     out["identical_text"] = ta == tb
     if job.get("stream_compare"):
         from .checks.c18 import stream_difference
-        sd = stream_difference(pa, pb, job.get("nonce_prefix"))
+        np_ = job.get("nonce_prefix")
+        if isinstance(np_, dict):
+            np_ = bytes.fromhex(np_["hex"])
+        sd = stream_difference(pa, pb, np_)
         if sd:
             out["stream_difference"] = sd
     cfg = tvjob.make_cfg(job)
